@@ -73,6 +73,7 @@ CONF = {
     # nsync_wait_n given the caller's mutex and several objects: released only once everything is registered, always held again on return
     "m_2": (["C11", "C01"], "q", dict(tree=T((1, 0, NONE), (2, 0, NONE)), NN=2, MaxNow=1, progs=[[MLOCK, WAITNM([1, 2], 1), MUNLOCK], [NOTIFY(1)], [MLOCK, MUNLOCK]])),
     "m_c": (["C11", "C01"], "q", dict(tree=T((1, 0, NONE)), NN=1, CV0=1, MaxNow=0, progs=[[MLOCK, WAITNM([1, 9]), MUNLOCK], [NOTIFY(1), CADD(-1)], [MLOCK, MUNLOCK]])),
+    "x_up": (["C11"], "q", dict(tree=T((1, 0, NONE)), NN=1, CV0=0, MaxNow=0, progs=[[CADD(1), CADD(-1)], [POLL(1)]])),
     "x_hb": (["C03"], "q", dict(tree=T((1, 0, NONE)), NN=1, CV0=1, MaxNow=0, progs=[[WAITN([9, 1])], [CADD(-1)]])),
     # C19: allocation failure at every constructor call of tree-building scenarios
     "a_seq": (["C19"], "q", dict(tree=T((1, 0, NONE)), NN=3, progs=[[NEW(2, 1, NONE, 1), NEW(2, 1), NEW(3, 2, 5, 1), NEW(3, 2, 5), NOTIFY(1), POLL(3)]])),
